@@ -245,6 +245,9 @@ def s3_save_get(props=None):
             obl.append(Obl('C07/%s/save/raises_only_read_only_unserialisable_or_calculator' % U, P, s1,
                            z3.Or(z3.And(ro, TYP(Val.addr(oc[1])) == K('AssertionError')), is_exc(oc[1]), *[oc[1] == t['outcome'][1] for t in calc]), oc))
             continue
+        # a save that returns normally has written BOTH objects of the recording (full and metadata) or -- sampled out -- nothing: never one
+        # of the two (metadata fetched on its own would then disagree with the full recording, or a listed recording could not be fetched)
+        obl.append(Obl('C07/%s/save/writes_both_objects_or_nothing' % U, ('C07', 'C15', 'C10'), s1, z3.BoolVal(len(puts) in (0, 2)), oc))
         if len(puts) != 2:
             # storage-level sampling dropped the recording (C17, unit s3_should_sample): nothing written at all
             obl.append(Obl('C17/%s/save/sampled_out_writes_nothing' % U, ('C17', 'C15'), s1, z3.BoolVal(len(puts) == 0 and len([t for t in s1.trace if t['name'] == 'sampling_calculator']) == 1), oc))
